@@ -84,6 +84,19 @@ fn leaves() -> Vec<Expression> {
             .into(),
         TableExpression::default().append_array_value(num(1.0)).append_field("a", Expression::from(true)).into(),
         FunctionExpression::default().into(),
+        // interpolated strings holding bytes that are not UTF-8 (strings are byte sequences)
+        InterpolatedStringExpression::empty()
+            .with_segment(InterpolationSegment::String(StringSegment::from_value(b"\xff".to_vec())))
+            .with_segment(Expression::from(true))
+            .into(),
+        InterpolatedStringExpression::empty()
+            .with_segment(InterpolationSegment::String(StringSegment::from_value(b"a\xfe\xffb".to_vec())))
+            .into(),
+        InterpolatedStringExpression::empty()
+            .with_segment(InterpolationSegment::String(StringSegment::from_value(b"\xc3".to_vec())))
+            .with_segment(Expression::nil())
+            .with_segment(InterpolationSegment::String(StringSegment::from_value(b"\xa9".to_vec())))
+            .into(),
     ];
     // non-finite values: as literal nodes (rules can build them) and as the divisions that produce them
     v.push(num(f64::NAN));
